@@ -194,6 +194,75 @@ def r1(repo, chk):
                         okb = "remaining_buffer_space" in btxt and "flight" not in dep and "congestion" not in dep
                         chk.ob("R1", "_write_ack_frame: the number of ranges reported is limited by the room in the datagram only (not by the congestion budget)", okb, f"bound `{btxt[:120]}` under {lg}: a congestion-limited endpoint would report only its newest range(s); the older ranges are pruned unreported once that ACK is acknowledged", wa.loc(st))
     chk.count("ack_queue_sites", len(sites))
+    _ack_frame_fits(repo, chk)
+
+
+def _arith(e, env):
+    """integer value of an expression over + - * //, max/min/len-free names in env; None when outside that grammar"""
+    if isinstance(e, ast.Constant) and isinstance(e.value, int):
+        return e.value
+    if isinstance(e, (ast.Name, ast.Attribute)):
+        return env.get(norm(e))
+    if isinstance(e, ast.BinOp):
+        a, b = _arith(e.left, env), _arith(e.right, env)
+        if a is None or b is None:
+            return None
+        if isinstance(e.op, ast.Add):
+            return a + b
+        if isinstance(e.op, ast.Sub):
+            return a - b
+        if isinstance(e.op, ast.Mult):
+            return a * b
+        if isinstance(e.op, ast.FloorDiv):
+            return a // b if b else None
+        return None
+    if isinstance(e, ast.Call) and call_name(e) in ("max", "min") and not e.keywords:
+        vs = [_arith(a, env) for a in e.args]
+        return None if None in vs or not vs else (max if call_name(e) == "max" else min)(vs)
+    return None
+
+
+def _ack_frame_fits(repo, chk):
+    """the ACK frame that is started always fits: with n = min(queued ranges, max_ranges(R)) the declared capacity
+    F + (n - 1) * K does not exceed the remaining buffer space R, for every R that can hold a one-range frame.  The two
+    expressions are taken from the code and evaluated over R = F .. 1500 with the module's constants (integer
+    arithmetic only) - a truncated frame that start_frame refuses is never sent: the receiver goes silent for good."""
+    wa = Fn(repo, CONN + "_write_ack_frame")
+    m = wa.mod
+    sf = [c for c in wa.calls(suffix="start_frame")]
+    mr = [(st, v) for st, t, v in wa.assigns(chain="max_ranges")]
+    trunc = [st for st in wa.stmts(lambda x: isinstance(x, ast.If)) if "max_ranges" in norm(st.test) and "len(" in norm(st.test)]
+    if len(sf) != 1 or len(mr) != 1 or len(trunc) != 1:
+        chk.ob("R3", "_write_ack_frame: the truncated ACK frame fits the room that is left", False, "max_ranges / truncation / start_frame not found in the expected roles", wa.loc(wa.node))
+        return
+    F = repo.const(m, m.assigns.get("ACK_FRAME_CAPACITY")) if "ACK_FRAME_CAPACITY" in m.assigns else None
+    K = repo.const(m, m.assigns.get("ACK_RANGE_CAPACITY")) if "ACK_RANGE_CAPACITY" in m.assigns else None
+    cap = get_kw(sf[0], "capacity", 1)
+    cap_stmt = None
+    if isinstance(cap, ast.Name):
+        d = [(st, v) for st, t, v in wa.assigns(chain=cap.id)]
+        cap_stmt, cap = (d[0][0], d[0][1]) if len(d) == 1 else (None, None)
+    # the capacity is computed from the queue as it is after the truncation
+    after = cap_stmt is None or wa.before(trunc[0], cap_stmt)
+    qn = [n for n in ast.walk(cap) if isinstance(n, ast.Call) and call_name(n) == "len"] if cap is not None else []
+    bad = None
+    if isinstance(F, int) and isinstance(K, int) and cap is not None and len(qn) == 1:
+        for R in range(F, 1501):
+            env = {"builder.remaining_buffer_space": R, "ACK_FRAME_CAPACITY": F, "ACK_RANGE_CAPACITY": K}
+            n = _arith(mr[0][1], env)
+            if n is None or n < 1:
+                bad = f"max_ranges not evaluable / < 1 at remaining space {R}"
+                break
+            env2 = dict(env)
+            capx = ast.parse(norm(cap).replace(norm(qn[0]), "__n"), mode="eval").body
+            env2["__n"] = n
+            c = _arith(capx, env2)
+            if c is None or c > R:
+                bad = f"remaining space {R}: {n} range(s) allowed, declared capacity {c} > {R}"
+                break
+    else:
+        bad = "constants or capacity expression not found"
+    chk.ob("R3", "_write_ack_frame: the truncated ACK frame fits the room that is left", bad is None and after, (bad or "") + ("" if after else " capacity computed before the queue is truncated") + ": start_frame raises QuicPacketBuilderStop, no ACK leaves, the deadline stays armed and the peer's data is never acknowledged", wa.loc(sf[0]))
 
 
 def _targets(st):
